@@ -302,7 +302,7 @@ Proof.
     + reflexivity.
 Qed.
 
-Lemma step_ctrans s o : Inv s -> Strict s -> wf_op o ->
+Lemma step_ctrans s o : Inv s -> Strict s -> wf_op s o ->
   forall id, ctrans (st_height s) (st_height (step s o)) (get id (st_contracts s)) (get id (st_contracts (step s o))).
 Proof.
   intros I S W id. unfold step. destruct o as [m|who id0 secret|dts|gw gP]; simpl.
@@ -319,7 +319,7 @@ Proof.
     apply andb_true_iff in Hb. destruct Hb as [Ho He]. apply Z.leb_le in He. unfold openb in Ho.
     destruct (c_state c) eqn:Hst; try discriminate. pose proof (S _ _ Hg Hst).
     apply ct_close; [exact Hst|discriminate|lia].
-  - destruct W.
+  - destruct ((gw =? GOV) && params_valid gP); constructor.
 Qed.
 
 Lemma ctrans_trans_ok h0 h1 oc oc' : ctrans h0 h1 oc oc' ->
@@ -518,10 +518,12 @@ Record StepFacts (k : case) (s s' : state) (evs : list event) : Prop := mkSF {
   sf_bank : forall a d, bal (st_bank s') a d = bal (st_bank s) a d + log_effect evs a d;
   sf_params : st_params s' = st_params s }.
 
-Lemma step_facts k s o : Inv s -> Strict s -> wf_op o -> Tbl k (step s o) -> exists evs, StepFacts k s (step s o) evs.
+Lemma step_facts k s o : Inv s -> Strict s -> wf_op s o -> (forall who P', o <> SetParams who P') ->
+  Tbl k (step s o) -> exists evs, StepFacts k s (step s o) evs.
 Proof.
-  intros I S W T. destruct (step_inv s o I S W) as (I' & S' & P'). destruct (step_log_bank s o) as (evs & Hl & Hb).
-  exists evs. constructor; auto. exact (step_ctrans s o I S W).
+  intros I S W Hns T. destruct (step_inv s o I S W) as (I' & S' & P'). destruct (step_log_bank s o) as (evs & Hl & Hb).
+  exists evs. constructor; auto; [exact (step_ctrans s o I S W)|].
+  rewrite P'. destruct o; try reflexivity. exfalso. exact (Hns _ _ eq_refl).
 Qed.
 
 Section OneStep.
@@ -670,14 +672,37 @@ Proof.
     apply Z.ltb_lt. exact (S' _ _ Hg Hst).
 Qed.
 
+(** a parameter change touches nothing but the parameters *)
+Lemma setparams_fields s who P' :
+  let s' := step s (SetParams who P') in
+  st_contracts s' = st_contracts s /\ st_queue s' = st_queue s /\ st_bank s' = st_bank s /\ st_assets s' = st_assets s
+  /\ st_supply s' = st_supply s /\ st_prev s' = st_prev s /\ st_win s' = st_win s /\ st_time s' = st_time s
+  /\ st_height s' = st_height s /\ st_log s' = st_log s.
+Proof. cbv zeta. unfold step. cbn [exec]. destruct ((who =? GOV) && params_valid P'); repeat split; reflexivity. Qed.
+
+Lemma p03_setparams k nd s who P' po o code0 code : Vw k nd s code0 po -> Vw k nd (step s (SetParams who P')) code o ->
+  p03 k po (CSetParams who P') o = 0.
+Proof.
+  intros V V'. destruct (setparams_fields s who P') as (E1 & E2 & E3 & E4 & E5 & E6 & _).
+  unfold p03, same_view.
+  rewrite (vw_contracts _ _ _ _ _ V), (vw_contracts _ _ _ _ _ V'), (vw_queue _ _ _ _ _ V), (vw_queue _ _ _ _ _ V'),
+          (vw_bals _ _ _ _ _ V), (vw_bals _ _ _ _ _ V'), (vw_sups _ _ _ _ _ V), (vw_sups _ _ _ _ _ V'),
+          (vw_bsups _ _ _ _ _ V), (vw_bsups _ _ _ _ _ V'), (vw_prev _ _ _ _ _ V), (vw_prev _ _ _ _ _ V').
+  unfold cproj, qproj, sproj_assets, bsproj. rewrite E1, E2, E3, E4, E5, E6.
+  rewrite !eqb_refl, Z.eqb_refl. reflexivity.
+Qed.
+
 (** *** the C03 monitor on one model step *)
-Lemma p03_step k nd s c po o code0 : Inv s -> Strict s -> wf_op (to_op k c) -> op_wf k c = true ->
+Lemma p03_step k nd s c po o code0 : Inv s -> Strict s -> wf_op s (to_op k c) -> op_wf k c = true ->
   Tbl k (step s (to_op k c)) -> Vw k nd s code0 po ->
   Vw k nd (step s (to_op k c)) (if step_ok s (to_op k c) then 0 else 1) o ->
   p03 k po c o = 0.
 Proof.
   intros I S W OW T V V'.
-  destruct (step_facts k s (to_op k c) I S W T) as (evs & F).
+  destruct (is_setparams c) eqn:Hsp.
+  { destruct c; try discriminate. exact (p03_setparams k nd s _ _ po o code0 _ V V'). }
+  assert (Hns : forall who P', to_op k c <> SetParams who P') by (destruct c; try discriminate; intros; discriminate).
+  destruct (step_facts k s (to_op k c) I S W Hns T) as (evs & F).
   pose proof (sf_moves k nd s _ evs F po o _ _ V V') as Hmv.
   pose proof (sf_sm k nd s _ evs F po o _ _ V V') as Hsm.
   assert (Hrej : step_ok s (to_op k c) = false -> same_view po o = true).
@@ -760,7 +785,7 @@ Proof.
   - cbv zeta. cbn [to_op step_ok exec] in V'.
     match goal with |- first_nonzero [_; (if ?b then _ else _); _] = 0 => replace b with true; [reflexivity|symmetry] end.
     exact (adv_due_live k nd s (repeat dt (Z.to_nat n)) po o code0 I S V V').
-  - destruct W.
+  - discriminate Hsp.
 Qed.
 
 (** *** the C04 monitor on one model state *)
@@ -787,14 +812,24 @@ Proof.
   unfold w_cur, wci, wco, is_in, is_out. destruct (complb c), (c_transfer c), (c_dir c); simpl; lia.
 Qed.
 
+(** the part of a view the C04 monitor reads *)
+Record Vw4 (k : case) (nd : nat) (s : state) (o : obs) : Prop := mkVw4 {
+  v4_contracts : o_contracts o = cproj k s;
+  v4_bals : o_bals o = mat (accounts k) nd (bal (st_bank s));
+  v4_sups : o_sups o = sproj_assets k s;
+  v4_bsups : o_bsups o = bsproj k s }.
+
+Lemma Vw_Vw4 k nd s code o : Vw k nd s code o -> Vw4 k nd s o.
+Proof. intros V. constructor; apply V. Qed.
+
 Section SumWhere.
-  Context (k : case) (nd : nat) (s : state) (code : Z) (o : obs) (I : Inv s) (T : Tbl k s) (V : Vw k nd s code o).
+  Context (k : case) (nd : nat) (s : state) (o : obs) (I : Inv s) (T : Tbl k s) (V : Vw4 k nd s o).
 
   Lemma sum_where_wsum (pred : cobs -> bool) (w : denom -> contract -> Z) d :
     (forall c, (if pred (proj_contract c) then amt c d else 0) = w d c) ->
     sum_where k o pred d = wsum (w d) (st_contracts s).
   Proof.
-    intros Hw. rewrite (sum_where_eq k o pred d (Pof s)) by (rewrite (vw_contracts _ _ _ _ _ V); reflexivity).
+    intros Hw. rewrite (sum_where_eq k o pred d (Pof s)) by (rewrite (v4_contracts _ _ _ _ V); reflexivity).
     rewrite <- (table_sum (fun id oc => match oc with Some c => if pred (proj_contract c) then amt_of (id_amount id) d else 0 | None => 0 end)
                           (w d) (k_ids k) (tb_nodup _ _ T) (fun _ : cid => eq_refl) (st_contracts s) (inv_keys _ I)).
     - apply zsum_map_ext. intros id _. unfold Pof. destruct (get id (st_contracts s)); reflexivity.
@@ -848,12 +883,12 @@ Proof.
   - destruct (IH ws x Hin) as (p' & w' & H1 & H2 & H3). exists p', w'. split; [right; exact H1|]. split; [right; exact H2|exact H3].
 Qed.
 
-Lemma p04_state k nd s code o ws : Inv s -> Tbl k s -> Vw k nd s code o -> WsRel k s ws -> p04 k o ws = 0.
+Lemma p04_state4 k nd s o ws : Inv s -> Tbl k s -> Vw4 k nd s o -> WsRel k s ws -> p04 k o ws = 0.
 Proof.
   intros I T V WR. pose proof (Inv_C04_of_Inv s I) as [Hesc Hasset].
-  assert (Hd : denoms_of o = zseq nd) by (unfold denoms_of; rewrite (vw_bals _ _ _ _ _ V), mat_hd_length; reflexivity).
+  assert (Hd : denoms_of o = zseq nd) by (unfold denoms_of; rewrite (v4_bals _ _ _ _ V), mat_hd_length; reflexivity).
   assert (Hrow : nthZ (k_nactors k) (o_bals o) = Some (map (fun d => bal (st_bank s) ESC d) (zseq nd))).
-  { rewrite (vw_bals _ _ _ _ _ V). unfold mat. rewrite nthZ_map. unfold nthZ.
+  { rewrite (v4_bals _ _ _ _ V). unfold mat. rewrite nthZ_map. unfold nthZ.
     destruct (tb_nact _ _ T) as [H0 H1]. replace (k_nactors k <? 0) with false by (symmetry; apply Z.ltb_ge; exact H0).
     pose proof (accounts_nth k ESC (tb_nact _ _ T) (ESC_party k)) as Hn. unfold row_index in Hn. rewrite Z.eqb_refl in Hn.
     rewrite Hn. reflexivity. }
@@ -864,7 +899,7 @@ Proof.
             forallb (fun x : aparam * option (Z * Z * Z * Z * Z) * Z * (Z * Z) =>
                        let '(p, s0, b, w) := x in match s0 with Some s' => f p s' b w | None => false end)
                     (combine (combine (combine (k_params k) (o_sups o)) (o_bsups o)) ws) = true).
-  { intros f Hf. rewrite (vw_sups _ _ _ _ _ V), (vw_bsups _ _ _ _ _ V). unfold sproj_assets, bsproj.
+  { intros f Hf. rewrite (v4_sups _ _ _ _ V), (v4_bsups _ _ _ _ V). unfold sproj_assets, bsproj.
     apply forallb_forall. intros x Hx. destruct (In_combine4 _ _ _ _ _ Hx) as (p & w & Hp & Hpw & ->).
     assert (Hgp : get_param (st_params s) (ap_denom p) = Some p)
       by (rewrite (tb_params _ _ T); exact (get_param_NoDup _ _ (tb_pden _ _ T) Hp)).
@@ -872,21 +907,21 @@ Proof.
   unfold p04. rewrite Hrow, Hd.
   replace (eqb (map (fun d => bal (st_bank s) ESC d) (zseq nd))
                (map (fun d => sum_where k o (fun c => is_open c && locks c) d) (zseq nd))) with true.
-  2:{ symmetry. apply eqb_true_iff. apply map_ext. intros d. rewrite (sw_esc k nd s code o I T V d). exact (Hesc d). }
+  2:{ symmetry. apply eqb_true_iff. apply map_ext. intros d. rewrite (sw_esc k nd s o I T V d). exact (Hesc d). }
   cbn [negb].
   rewrite Hper.
   2:{ intros p w a Hp Hpw Ha.
       assert (Hgp : get_param (st_params s) (ap_denom p) = Some p)
         by (rewrite (tb_params _ _ T); exact (get_param_NoDup _ _ (tb_pden _ _ T) Hp)).
       destruct (Hasset _ _ Hgp) as (a0 & Ha0 & Hin & Hout & _). rewrite Ha in Ha0. inversion Ha0; subst a0.
-      rewrite (sw_in k nd s code o I T V), (sw_out k nd s code o I T V), <- Hin, <- Hout, !Z.eqb_refl. reflexivity. }
+      rewrite (sw_in k nd s o I T V), (sw_out k nd s o I T V), <- Hin, <- Hout, !Z.eqb_refl. reflexivity. }
   cbn [negb].
   rewrite Hper.
   2:{ intros p w a Hp Hpw Ha.
       assert (Hgp : get_param (st_params s) (ap_denom p) = Some p)
         by (rewrite (tb_params _ _ T); exact (get_param_NoDup _ _ (tb_pden _ _ T) Hp)).
       destruct (Hasset _ _ Hgp) as (a0 & Ha0 & _ & _ & Hcur & Hsup & _). rewrite Ha in Ha0. inversion Ha0; subst a0.
-      rewrite (sw_ci k nd s code o I T V), (sw_co k nd s code o I T V), <- wsum_sub.
+      rewrite (sw_ci k nd s o I T V), (sw_co k nd s o I T V), <- wsum_sub.
       rewrite <- (wsum_ext (w_cur (ap_denom p)) _ _ (fun _ c _ => w_cur_split (ap_denom p) c)).
       rewrite Hsup, <- Hcur, !Z.eqb_refl. reflexivity. }
   cbn [negb].
@@ -899,6 +934,10 @@ Proof.
   destruct (ap_tl p) eqn:Etl; [|reflexivity]. cbn. destruct (Htl eq_refl) as (_ & _ & Hw).
   destruct (WR p w Hpw Etl) as [_ Hsw]. rewrite Hsw. apply Z.leb_le. exact Hw.
 Qed.
+
+Lemma p04_state k nd s code o ws : Inv s -> Tbl k s -> Vw k nd s code o -> WsRel k s ws -> p04 k o ws = 0.
+Proof. intros I T V WR. exact (p04_state4 k nd s o ws I T (Vw_Vw4 _ _ _ _ _ V) WR). Qed.
+
 
 (** ** Part E: the monitor's window bookkeeping follows the model *)
 Definition elmap (s : state) (d : denom) : option Z := option_map as_el (get d (st_assets s)).
@@ -1025,12 +1064,12 @@ Proof.
     + exists c. split; [reflexivity|]. rewrite Htr. unfold dequeue, set_contract. sproj. exact Wn.
 Qed.
 
-Lemma msg_win s o : Inv s -> Strict s -> wf_op o -> (forall dts, o <> Adv dts) ->
+Lemma msg_win s o : Inv s -> Strict s -> wf_op s o -> (forall dts, o <> Adv dts) -> (forall who P', o <> SetParams who P') ->
   Quiet s (step s o)
   /\ forall d, sup_of (st_win (step s o)) d
               = sup_of (st_win s) d + (wsum (wci d) (st_contracts (step s o)) - wsum (wci d) (st_contracts s)).
 Proof.
-  intros I S W Hna. unfold step. destruct o as [m|who id secret|dts|gw gP]; [| |exfalso; exact (Hna dts eq_refl)|destruct W]; cbn [exec].
+  intros I S W Hna Hns. unfold step. destruct o as [m|who id secret|dts|gw gP]; [| |exfalso; exact (Hna dts eq_refl)|exfalso; exact (Hns _ _ eq_refl)]; cbn [exec].
   - destruct (create s m) as [s'|] eqn:Hc; [|split; [apply Quiet_refl|intros; lia]].
     destruct (create_quiet _ _ _ Hc) as [Q Wn]. split; [exact Q|]. intros d.
     destruct (create_open_rel s m s' I W Hc) as (dr & R).
@@ -1102,12 +1141,12 @@ Proof.
   rewrite IH. reflexivity.
 Qed.
 
-Lemma WsRel_msg k nd s o code0 code po ob ws evs : StepFacts k s (step s o) evs -> Strict s -> wf_op o ->
-  (forall dts, o <> Adv dts) ->
+Lemma WsRel_msg k nd s o code0 code po ob ws evs : StepFacts k s (step s o) evs -> Strict s -> wf_op s o ->
+  (forall dts, o <> Adv dts) -> (forall who P', o <> SetParams who P') ->
   Vw k nd s code0 po -> Vw k nd (step s o) code ob -> WsRel k s ws -> WsRel k (step s o) (wclaims k po ob ws).
 Proof.
-  intros F S W Hna V V' WR. pose proof (sf_inv _ _ _ _ F) as I. pose proof (sf_inv' _ _ _ _ F) as I'. pose proof (sf_tbl' _ _ _ _ F) as T.
-  destruct (msg_win s o I S W Hna) as ((Hel & _ & _) & Hwin).
+  intros F S W Hna Hns V V' WR. pose proof (sf_inv _ _ _ _ F) as I. pose proof (sf_inv' _ _ _ _ F) as I'. pose proof (sf_tbl' _ _ _ _ F) as T.
+  destruct (msg_win s o I S W Hna Hns) as ((Hel & _ & _) & Hwin).
   rewrite (wclaims_eq k po ob ws (Pof s) (Pof (step s o)))
     by (first [rewrite (vw_contracts _ _ _ _ _ V)|rewrite (vw_contracts _ _ _ _ _ V')]; reflexivity).
   intros p w Hin Htl. rewrite combine_map_snd in Hin. apply in_map_iff in Hin.
@@ -1240,10 +1279,10 @@ Proof.
 Qed.
 
 (** ** Part F: the whole checker *)
-Lemma tbl_step k s c : Inv s -> Strict s -> wf_op (to_op k c) -> op_wf k c = true -> Tbl k s -> Tbl k (step s (to_op k c)).
+Lemma tbl_step k s c : Inv s -> Strict s -> wf_op s (to_op k c) -> is_setparams c = false -> op_wf k c = true -> Tbl k s -> Tbl k (step s (to_op k c)).
 Proof.
-  intros I S W OW T. destruct (step_inv s _ I S W) as (_ & _ & HP). destruct T as [T1 T2 T3 T4 T5 T6].
-  constructor; auto; [|rewrite HP; exact T6].
+  intros I S W Hsp OW T. destruct (step_inv s _ I S W) as (_ & _ & HP). destruct T as [T1 T2 T3 T4 T5 T6].
+  constructor; auto; [|rewrite HP; destruct c; try discriminate; exact T6].
   intros id c' Hg. destruct (get id (st_contracts s)) as [c0|] eqn:Hg0; [exact (T3 _ _ Hg0)|].
   destruct (created_open_lemma s _ id c' I S W Hg0 Hg) as (_ & _ & _ & m & Eo & ->).
   destruct c as [idx m'| | | |]; cbn [to_op] in Eo; try discriminate. inversion Eo; subst m'.
@@ -1262,17 +1301,61 @@ Fixpoint trace_ok (k : case) (nd : nat) (s : state) (po : obs) (steps : list (co
       /\ trace_ok k nd s' (undiff po d) rest
   end.
 
+Lemma termW_same d id p : termW d id p p = 0.
+Proof.
+  unfold termW. destruct p as [p'|]; [|reflexivity].
+  destruct (c_state_of p' =? 0) eqn:E0; simpl; [|reflexivity]. apply Z.eqb_eq in E0. rewrite E0. reflexivity.
+Qed.
+
+Lemma WsRel_setparams k nd s who P' code0 code po o ws :
+  Vw k nd s code0 po -> Vw k nd (step s (SetParams who P')) code o -> WsRel k s ws -> WsRel k s (wclaims k po o ws).
+Proof.
+  intros V V' WR. destruct (setparams_fields s who P') as (E1 & _).
+  rewrite (wclaims_eq k po o ws (Pof s) (Pof s)).
+  2:{ rewrite (vw_contracts _ _ _ _ _ V). reflexivity. }
+  2:{ rewrite (vw_contracts _ _ _ _ _ V'). unfold cproj, Pof. rewrite E1. reflexivity. }
+  intros p w Hin Htl. rewrite combine_map_snd in Hin. apply in_map_iff in Hin.
+  destruct Hin as ([p0 [el0 w0]] & E & Hin0). cbn [fst snd] in E. inversion E; subst p w. clear E.
+  destruct (WR p0 (el0, w0) Hin0 Htl) as [He Hw]. cbn [fst snd] in *. split; [exact He|].
+  rewrite (zsum_map_ext _ (fun _ => 0)) by (intros; apply termW_same).
+  rewrite Hw. clear. induction (k_ids k); simpl; lia.
+Qed.
+
+Lemma check_from_off k nd : forall steps s po ws i, trace_ok k nd s po steps ->
+  check_from k false s po ws steps i (mkV (-1) (-1) 0 (-1) 0) = mkV (-1) (-1) 0 (-1) 0.
+Proof.
+  induction steps as [|[c d] rest IH]; intros s po ws i TR; [reflexivity|].
+  destruct TR as (OW & V' & TR'). cbn [check_from]. rewrite OW, (Vw_corr _ _ _ _ _ V'). cbn.
+  exact (IH _ _ _ _ TR').
+Qed.
+
 Lemma check_from_pass k nd : forall steps s po ws i code0,
   Inv s -> Strict s -> Tbl k s -> Vw k nd s code0 po -> WsRel k s ws -> PInv k s ->
-  Forall (fun cd : cop * dobs => wf_op (to_op k (fst cd))) steps -> trace_ok k nd s po steps ->
+  wf_run s (map (fun cd : cop * dobs => to_op k (fst cd)) steps) -> trace_ok k nd s po steps ->
   check_from k true s po ws steps i (mkV (-1) (-1) 0 (-1) 0) = mkV (-1) (-1) 0 (-1) 0.
 Proof.
   induction steps as [|[c d] rest IH]; intros s po ws i code0 I S T V WR PV WF TR; [reflexivity|].
-  inversion WF as [|? ? W WF']; subst. cbn [fst] in W. destruct TR as (OW & V' & TR').
-  assert (Hns : is_setparams c = false) by (destruct c; try reflexivity; destruct W).
-  cbn [check_from]. rewrite Hns. cbn [andb negb]. set (o := undiff po d) in *. set (s' := step s (to_op k c)) in *.
+  cbn [map fst wf_run] in WF. destruct WF as [W WF']. destruct TR as (OW & V' & TR').
+  destruct (is_setparams c) eqn:Hsp.
+  { (* a parameter change: the monitors look at this step, then stop *)
+    destruct c as [| | | |gw gP]; try discriminate. cbn [to_op] in *.
+    cbn [check_from is_setparams]. cbn [andb negb to_op].
+    pose proof (Vw_corr _ _ _ _ _ V') as Hcorr.
+    pose proof (p03_setparams k nd s gw gP po (undiff po d) code0 _ V V') as H03.
+    destruct (setparams_fields s gw gP) as (E1 & E2 & E3 & E4 & E5 & _).
+    assert (V4 : Vw4 k nd s (undiff po d)).
+    { constructor.
+      - rewrite (vw_contracts _ _ _ _ _ V'). unfold cproj. rewrite E1. reflexivity.
+      - rewrite (vw_bals _ _ _ _ _ V'). rewrite E3. reflexivity.
+      - rewrite (vw_sups _ _ _ _ _ V'). unfold sproj_assets. rewrite E4. reflexivity.
+      - rewrite (vw_bsups _ _ _ _ _ V'). unfold bsproj. rewrite E5. reflexivity. }
+    pose proof (p04_state4 k nd s _ _ I T V4 (WsRel_setparams k nd s gw gP code0 _ po _ ws V V' WR)) as H04.
+    rewrite OW, Hcorr, H03, H04. cbn.
+    exact (check_from_off k nd rest _ _ _ _ TR'). }
+  assert (Hns : forall who P', to_op k c <> SetParams who P') by (destruct c; try discriminate; intros; discriminate).
+  cbn [check_from]. rewrite Hsp. cbn [andb negb]. set (o := undiff po d) in *. set (s' := step s (to_op k c)) in *.
   destruct (step_inv s _ I S W) as (I' & S' & HP').
-  pose proof (tbl_step k s c I S W OW T) as T'. fold s' in T', I', S', HP'.
+  pose proof (tbl_step k s c I S W Hsp OW T) as T'. fold s' in T', I', S', HP'.
   pose proof (Vw_corr _ _ _ _ _ V') as Hcorr.
   pose proof (p03_step k nd s c po o code0 I S W OW T' V V') as H03.
   assert (HW : WsRel k s' (match c with
@@ -1280,13 +1363,13 @@ Proof.
                            | CAdvN n dt => wticks k ws (repeat dt (Z.to_nat n))
                            | _ => wclaims k po o ws
                            end) /\ PInv k s').
-  { destruct (step_facts k s (to_op k c) I S W T') as (evs & F).
-    destruct c as [idx m|who idx secret|dts|n dt|gw gP]; cbn [to_op] in *; [| | | |destruct W].
-    - split; [apply (WsRel_msg k nd s (Create m) code0 (if step_ok s (Create m) then 0 else 1) po o ws evs F S W); [intros dts; discriminate|exact V|exact V'|exact WR]|].
-      destruct (msg_win s (Create m) I S W (fun dts => ltac:(discriminate))) as ((_ & Ht & Hp) & _).
+  { destruct (step_facts k s (to_op k c) I S W Hns T') as (evs & F).
+    destruct c as [idx m|who idx secret|dts|n dt|gw gP]; cbn [to_op] in *; [| | | |discriminate Hsp].
+    - split; [apply (WsRel_msg k nd s (Create m) code0 (if step_ok s (Create m) then 0 else 1) po o ws evs F S W); [intros dts; discriminate|intros; discriminate|exact V|exact V'|exact WR]|].
+      destruct (msg_win s (Create m) I S W (fun dts => ltac:(discriminate)) (fun _ _ => ltac:(discriminate))) as ((_ & Ht & Hp) & _).
       intros Hne. unfold PrevInv, s'. rewrite Ht, Hp. exact (PV Hne).
-    - split; [apply (WsRel_msg k nd s (Claim who (id_at k idx) secret) code0 (if step_ok s (Claim who (id_at k idx) secret) then 0 else 1) po o ws evs F S W); [intros dts; discriminate|exact V|exact V'|exact WR]|].
-      destruct (msg_win s (Claim who (id_at k idx) secret) I S W (fun dts => ltac:(discriminate))) as ((_ & Ht & Hp) & _).
+    - split; [apply (WsRel_msg k nd s (Claim who (id_at k idx) secret) code0 (if step_ok s (Claim who (id_at k idx) secret) then 0 else 1) po o ws evs F S W); [intros dts; discriminate|intros; discriminate|exact V|exact V'|exact WR]|].
+      destruct (msg_win s (Claim who (id_at k idx) secret) I S W (fun dts => ltac:(discriminate)) (fun _ _ => ltac:(discriminate))) as ((_ & Ht & Hp) & _).
       intros Hne. unfold PrevInv, s'. rewrite Ht, Hp. exact (PV Hne).
     - unfold s', step. cbn [exec]. exact (adv_ws k dts s ws I S (tb_params _ _ T) (tb_pden _ _ T) PV WR).
     - unfold s', step. cbn [exec]. exact (adv_ws k _ s ws I S (tb_params _ _ T) (tb_pden _ _ T) PV WR). }
@@ -1322,14 +1405,16 @@ Proof.
     subst w. destruct (get_param_of_In _ _ Hp) as (p' & Hgp). unfold case_init, init. sproj.
     rewrite (init_assets _ _ _ Hgp). split; reflexivity. }
   assert (PV0 : PInv k (case_init k)) by (intros _; reflexivity).
-  assert (WFs : Forall (fun cd : cop * dobs => wf_op (to_op k (fst cd))) (k_steps k)).
-  { unfold case_ops in WF. rewrite Forall_forall in *. intros cd Hin. apply WF. apply in_map_iff. exists cd. auto. }
+  assert (WFs : wf_run (case_init k) (map (fun cd : cop * dobs => to_op k (fst cd)) (k_steps k))) by exact WF.
   pose proof (check_from_pass k nd (k_steps k) (case_init k) (k_obs0 k) _ 0 0 I0 S0 T0 V0 WR0 PV0 WFs TR) as HC.
   pose proof (p04_state k nd (case_init k) 0 (k_obs0 k) _ I0 T0 V0 WR0) as H04.
   pose proof (Vw_corr _ _ _ _ _ V0) as Hc0.
   assert (H0 : hyps0_b k = true).
   { unfold hyps_b in H. unfold hyps0_b. apply andb_true_iff in H. destruct H as [H12 H3]. rewrite H12. simpl.
-    rewrite forallb_forall in *. intros o Ho. specialize (H3 o Ho). destruct o; simpl in *; try reflexivity; try exact H3. }
+    revert H3. generalize (init (k_params k) (bank_of k (k_obs0 k)) (o_time (k_obs0 k))). generalize (case_ops k).
+    induction l as [|o l IHl]; intros s0 H3; simpl in *; [reflexivity|].
+    apply andb_true_iff in H3. destruct H3 as [Ho Hl]. rewrite (IHl _ Hl), andb_true_r.
+    destruct o; simpl in *; try reflexivity. exact Ho. }
   unfold check_case_C03, check_case_C04, check_all. fold (case_init k).
   rewrite Hc0, H0, H04. cbn [andb Z.eqb]. rewrite HC. split; reflexivity.
 Qed.
